@@ -290,3 +290,7 @@ def neighbours(case):
     op = case[2]
     out = [["op", case[1], [op[0], int(op[1]) + dx, op[2]]] for dx in (-1, 1)]
     return out + shrink(case)
+
+
+from props import envrecv  # noqa: E402
+envrecv.install(globals(), "squash_in", 0.05)      # 5 % of the cases: an envelope is the receiver of squash_in
